@@ -309,6 +309,10 @@ func checkC16(c *Ctx) Meta {
 		key := "messageProcessor:message-used-only-after-error-test"
 		rd := firstCall(f, "(*"+repoMod+"/fractal.MessageReceiver).readRemoteMessage")
 		if rd == nil {
+			// the small reader folded into the loop: the message is DecodeMessage's own result
+			rd = firstCall(f, pkgProto+".DecodeMessage")
+		}
+		if rd == nil {
 			c.Bad("C16-RECV", key, c.Pos(f.Pos()), "reason=anchor-missing: readRemoteMessage call")
 		} else {
 			msg := resultOf(rd, 0)
